@@ -133,8 +133,11 @@ _validated = {"n": 0, "bad": 0}
 def gfortran_sample(ctx, rendered, every=10):
     """Soundness of the generator: every n-th program must be accepted by gfortran (harness error
     otherwise: the check would be asserting things about invalid programs)."""
+    # sampled as a function of the text (not of a counter): the same program is validated again when Hypothesis replays it
+    import zlib
+
     _validated["n"] += 1
-    if _validated["n"] % every:
+    if zlib.crc32(repr(sorted(rendered.files.items())).encode()) % every:
         return
     if shutil.which("gfortran") is None:
         ctx.notes["gfortran"] = "not available: generator soundness not cross-checked in this run"
